@@ -81,6 +81,13 @@ def b64Decode (cs : List Char) : Option Bytes :=
 def b64EncodeStr (bs : Bytes) : String := String.ofList (b64Encode bs)
 def b64DecodeStr (s : String) : Option Bytes := b64Decode s.toList
 
+/-- `encoder.DecodeString` (hashes, nonces, initial states): the canonical text only — no line
+    breaks, no unused bits set in the last character; i.e. what re-encodes to itself -/
+def b64DecodeStrictStr (s : String) : Option Bytes :=
+  match b64Decode s.toList with
+  | some bs => if b64Encode bs = s.toList then some bs else none
+  | none => none
+
 /-! ### varint / multihash -/
 
 /-- minimal unsigned varint (`binary.PutUvarint`) -/
